@@ -844,6 +844,11 @@ Section Examples.
        blocks := [ [[z 2]]; []; [[z 2; z (-1)]; [z (-1); z 2]] ];
        curv := [ [z 4; z 1; z 0; z 1]; [z 1; z 3; z 1; z 0]; [z 0; z 1; z 5; z 2]; [z 1; z 0; z 2; z 6] ];
        recon := [z 1; z 5; z (-2); z 3] |}.
+  (* the same objects and regularization, another curvature matrix and another value at the unregularized parameter *)
+  Definition ex_inv2 : inv (T O) :=
+    {| objs := objs ex_inv; blocks := blocks ex_inv;
+       curv := [ [z 9; z 0; z 0; z 0]; [z 0; z 9; z 0; z 0]; [z 0; z 0; z 9; z 0]; [z 0; z 0; z 0; z 9] ];
+       recon := [z 1; z 77; z (-2); z 3] |}.
   (* 2 x 2 native arrays, second pixel masked and carrying garbage [g1 g2 g3] *)
   Definition ex_fit (g1 g2 g3 : T O) : fit (T O) :=
     {| mask := [false; true; false; false]; use_mask := true; sky := z 1;
@@ -893,4 +898,15 @@ Proof.
   unfold g_log_likelihood_from, g_log_likelihood_with_regularization_from, g_log_evidence_from,
     log_likelihood_from, log_likelihood_with_regularization_from, log_evidence_from. rops.
   repeat split; lra.
+Qed.
+
+Lemma ex_hyps_inv2 :
+  inv_okb (ex_inv (RL ln)) = true /\ inv_okb (ex_inv2 (RL ln)) = true /\
+  objs (ex_inv (RL ln)) = objs (ex_inv2 (RL ln)) /\ blocks (ex_inv (RL ln)) = blocks (ex_inv2 (RL ln)) /\
+  (forall i, In i (reg_indices (objs (ex_inv (RL ln)))) -> at_ (recon (ex_inv (RL ln))) i = at_ (recon (ex_inv2 (RL ln))) i) /\
+  recon (ex_inv (RL ln)) <> recon (ex_inv2 (RL ln)).
+Proof.
+  repeat split; try (lazy; reflexivity).
+  - change (reg_indices (objs (ex_inv (RL ln)))) with [0; 2; 3]%nat. intros i [<-|[<-|[<-|[]]]]; reflexivity.
+  - intros E. apply (f_equal (fun l => nth 1 l 0%R)) in E. cbn in E. apply eq_IZR in E. discriminate E.
 Qed.
